@@ -271,6 +271,31 @@ def v2_low_family():
     return out
 
 
+def singletons(ver, rng, nbases):
+    """base assignment + exactly ONE optional metric with a defined value (and nothing else): the spelling in which a
+    metric is the sole member of its group; `nbases` random base assignments (all of them if there are fewer)"""
+    import itertools
+    V = VOCAB[ver]
+    doms = [V["legal"][m] for m in V["mandatory"]]
+    total = 1
+    for d in doms:
+        total *= len(d)
+    if total <= nbases:
+        bases = [dict(zip(V["mandatory"], c)) for c in itertools.product(*doms)]
+    else:
+        bases = [{m: rng.choice(V["legal"][m]) for m in V["mandatory"]} for _ in range(nbases)]
+    opt = [m for m in V["order"] if m not in V["mandatory"]]
+    out = []
+    for a in bases:
+        pfx = rng.choice(PREFIX[ver])
+        body = "/".join("%s:%s" % (k, a[k]) for k in V["mandatory"])
+        for m in opt:
+            for v in V["legal"][m]:
+                if v != V["nd"]:
+                    out.append("%s%s/%s:%s" % (pfx, body, m, v))
+    return out
+
+
 ALPHABET = "AVCNLHPXSEMRUITDOFWY:/.0123456789 acnlx_-\t"
 
 
